@@ -25,7 +25,10 @@ type Bucket struct {
 	AmountIn  *big.Rat // net of the spread factor
 	Fee       *big.Rat // spread charge of the segment (in token-in units)
 	AmountOut *big.Rat
-	CrossedTo int64 // tick crossed at the end of the segment (valid if Crossed)
+	// PriceOther: worst-case value, inside the segment, of one unit of the token that is NOT being judged (the token
+	// out for exact-in, the token in for exact-out are judged) in units of the judged token
+	PriceOther *big.Rat
+	CrossedTo  int64 // tick crossed at the end of the segment (valid if Crossed)
 	Crossed   bool
 }
 
@@ -181,6 +184,7 @@ func (s *Sim) RefSwap(zeroForOne, exactIn bool, amount *big.Int) RefResult {
 			if !exactIn {
 				price.Quo(price, oneMinusF)
 			}
+			b.PriceOther = new(big.Rat).Set(price)
 			res.Beta.Add(res.Beta, big.NewRat(2, 1)).Add(res.Beta, new(big.Rat).Mul(big.NewRat(2, 1), price))
 			// the spread charge multiplies by f/(1-f) held at 18 decimals (rounded up): up to amountIn*2e-18 of
 			// token-in per bucket, in the pool's favour
